@@ -35,11 +35,37 @@ def _case(draw, tier):
             # one AdjointSDE object serves a whole backward pass: optionally it is first evaluated at a later forward time,
             # where (regime switch) the diffusion is a constant without state or parameters, and only then at the point
             # under test - what it returns there must not depend on what it was asked before
-            "warmup_regime": draw(st.sampled_from([None, None, "constant_diffusion_first", "same_regime_first"]))}
+            "warmup_regime": draw(st.sampled_from([None, None, "constant_diffusion_first", "same_regime_first"])),
+            # the evaluation point may be one where the diffusion vanishes exactly (g(t,y) - g(t,0) at y = 0) while its
+            # derivative does not; the adjoint parameter list may be empty (adjoint_params=() is documented)
+            "g_zero_point": draw(st.sampled_from([False, False, False, True])),
+            "no_params": draw(st.sampled_from([False, False, False, True]))}
 
 
 def strategy(tier):
     return _case(tier)
+
+
+def enumerate_cases(tier):
+    """Every (calculus, noise type, grad mode) x {plain point, point where the diffusion vanishes, empty parameter list,
+    evaluation after a regime switch} once."""
+    import os
+    import random
+    seed = int(os.environ.get("VERIF_SEED", "1") or 1)
+    idx = 0
+    for sde_type in sdes.SDE_TYPES:
+        for nt in sdes.NOISE_TYPES:
+            for grad in (False, True):
+                for flavour in ("plain", "g_zero_point", "no_params", "constant_diffusion_first"):
+                    idx += 1
+                    rnd = random.Random(seed * 9001 + idx)
+                    spec = {"sde_type": sde_type, "noise_type": nt, "d": 2, "m": 1 if nt == "scalar" else 2, "batch": 2,
+                            "hidden": 3, "seed": rnd.randrange(2 ** 31), "tdep": True, "fscale": 1.0, "gscale": 0.7,
+                            "dtype": "float64"}
+                    yield {"spec": spec, "seed": rnd.randrange(2 ** 31), "t": rnd.choice([0.0, 0.4, -0.7]),
+                           "grad_enabled": grad, "g_zero_point": flavour == "g_zero_point",
+                           "no_params": flavour == "no_params",
+                           "warmup_regime": flavour if flavour == "constant_diffusion_first" else None}
 
 
 class Oracle:
@@ -106,10 +132,27 @@ def run_case(case):
     B, d, m = spec["batch"], spec["d"], spec["m"]
     gen = torch.Generator().manual_seed(case["seed"])
     y = torch.randn(B, d, generator=gen, dtype=torch.float64)
+    gzp = bool(case.get("g_zero_point")) and nt != "additive" and not warm
+    if gzp:
+        base_ = sde
+
+        class _GZero(torch.nn.Module):
+            def __init__(self):
+                super().__init__()
+                self.base = base_
+                self.noise_type, self.sde_type, self.spec = base_.noise_type, base_.sde_type, base_.spec
+
+            def f(self, t, yy):
+                return self.base.f(t, yy)
+
+            def g(self, t, yy):
+                return self.base.g(t, yy) - self.base.g(t, torch.zeros_like(yy))
+        sde = _GZero()
+        y = torch.zeros(B, d, dtype=torch.float64)
     a = torch.randn(B, d, generator=gen, dtype=torch.float64)
     v = torch.randn(B, m, generator=gen, dtype=torch.float64)
     v2 = torch.randn(B, m, generator=gen, dtype=torch.float64)
-    params = [p for p in sde.parameters()]
+    params = [] if case.get("no_params") else [p for p in sde.parameters()]
     shapes = [y.size(), a.size()] + [p.size() for p in params]
     fwd = base_sde.ForwardSDE(sde)
     adj = adjoint_sde.AdjointSDE(fwd, params, shapes)
@@ -242,7 +285,8 @@ def run_case(case):
                 "second_derivative", f"derivative of the adjoint fields w.r.t. the augmented state ({an:.8g}) differs "
                                      f"from central differences ({fdv:.8g})", sig))
     labels = [f"{spec['sde_type']}/{nt}", "grad_enabled" if case["grad_enabled"] else "no_grad"] + \
-        ([f"warmup={warm}"] if warm else [])
+        ([f"warmup={warm}"] if warm else []) + (["diffusion_vanishes_at_point"] if gzp else []) + \
+        (["empty_adjoint_params"] if case.get("no_params") else [])
     return Result(nontrivial=(d >= 2 or B >= 2), labels=labels, checks=checks,
                   metrics={f"relerr/{k}": v_ for k, v_ in worst.items()})
 
